@@ -50,3 +50,4 @@ pub mod ws;
 pub mod sema;
 pub mod lspmodel;
 pub mod lspclient;
+pub mod modelws;
